@@ -199,7 +199,7 @@ func main() {
 		fmt.Fprintln(os.Stderr, "harness failure:", e)
 		os.Exit(3)
 	}
-	rep.Rule = "inputs: corpus, exhaustive strings over class-representative alphabets, every (context, mode prefix, byte, suffix), number-shape and escape families, seeded random documents with byte mutations, tokens straddling offset 4096, nesting depth 7..1025 (thorough: ..10000) of arrays, objects and both alternating (balanced, one closer short, one too many, mismatched) and containers of 100..1000 (thorough: ..20000) members; each input through 8 entry variants x chunkings x {single, multi} plus 4 channel-delivery variants (Reuse requested) in multi mode; duplicates are dropped before running (64-bit hash); distinct_nontrivial counts the distinct inputs of length >= 2"
+	rep.Rule = "inputs: corpus, exhaustive strings over class-representative alphabets, every (context, mode prefix, byte, suffix), number-shape and escape families, seeded random documents with byte mutations, tokens straddling offset 4096, nesting depth 7..1025 (thorough: ..10000) of arrays, objects and both alternating (balanced, one closer short, one too many, mismatched) and containers of 100..1000 (thorough: arrays ..20000, objects ..5000) members; each input through 8 entry variants x chunkings x {single, multi} plus 4 channel-delivery variants (Reuse requested) in multi mode; duplicates are dropped before running (64-bit hash); distinct_nontrivial counts the distinct inputs of length >= 2"
 	if err := rep.Write(*outPath); err != nil {
 		fmt.Fprintln(os.Stderr, err)
 		os.Exit(3)
